@@ -29,7 +29,7 @@ class Responder:
         self.i_wready = [ii.get(p.wdata.ready) for p in ports]
         self.i_rvalid = [ii.get(p.rdata.valid) for p in ports]
         self.i_rdata = [ii.get(p.rdata.data) for p in ports]
-        self.r_valid = [c.rd(p.cmd.valid) for p in ports]; self.r_we = [c.rd(p.cmd.we) for p in ports]; self.r_addr = [c.rd(p.cmd.addr) for p in ports]
+        self.r_valid = [c.rd(p.cmd.valid) for p in ports]; self.r_we = [(c.rd(p.cmd.we) if p.cmd.we is not None else (lambda S, I, O: 0)) for p in ports]; self.r_addr = [c.rd(p.cmd.addr) for p in ports]
         self.r_wvalid = [c.rd(p.wdata.valid) for p in ports]; self.r_wdata = [c.rd(p.wdata.data) for p in ports]; self.r_wwe = [c.rd(p.wdata.we) for p in ports]
         self.r_rready = [c.rd(p.rdata.ready) for p in ports]
         self.nbytes = [p.data_width // 8 for p in ports]
@@ -41,7 +41,7 @@ class Responder:
         r = []
         for p in ports:
             r += [p.cmd.valid, p.cmd.we, p.cmd.addr, p.wdata.valid, p.wdata.data, p.wdata.we, p.rdata.ready]
-        return r
+        return [x for x in r if x is not None]
 
     # state: (cq, mem)   cq: tuple of (port, we, addr, age)   mem: sorted tuple of (addr, word)
     def init(self):
